@@ -566,6 +566,10 @@ class Memory():
         # Find the write request
         if id in self._write_requests:
             self._write_requests_lock.acquire()
+            if len(self._write_requests[id]) == 0:
+                # Duplicated acknowledgement, nothing is pending
+                self._write_requests_lock.release()
+                return
             do_call_sucess_cb = False
             do_call_fail_cb = False
             wreq = self._write_requests[id][0]
